@@ -6,9 +6,9 @@ NK = 6
 # slots are numbered from 1: with rotation 0 a document of K events uses entries 1..K of each list, so the most telling
 # variants come first
 SELECTORS = ['a', 'j:not(.k):hover', 'c[d="{;}"]', 'b:hover', 'l:m, n:o', 'e::before', 'f > g', '.h:not(.i)']
-DECLS = [('c', 'd'), ('n', 'calc((1 - 2) / 3) q'), ('e', '"x;}{" f'), ('$v', '1px'), ('g', 'url(a:b)'), ('--cp', '2'), ('m', '1px 2px')]
+DECLS = [('c', 'd'), ('n', 'calc((1 - 2) / 3) q'), ('e', '"x;}{" f'), ('$m', '(a: (b: c), d: e)'), ('$v', '1px'), ('g', 'url(a:b)'), ('--cp', '2'), ('m', '1px 2px')]
 # value tokens (relative to the value start) per declaration variant
-TOKENS = {'d': [(0, 1)], '"x;}{" f': [(0, 6), (7, 8)], '1px': [(0, 3)], '2': [(0, 1)], 'url(a:b)': [(0, 8)], '1px 2px': [(0, 3), (4, 7)], 'calc((1 - 2) / 3) q': [(0, 17), (18, 19)]}
+TOKENS = {'(a: (b: c), d: e)': [(0, 17)], 'd': [(0, 1)], '"x;}{" f': [(0, 6), (7, 8)], '1px': [(0, 3)], '2': [(0, 1)], 'url(a:b)': [(0, 8)], '1px 2px': [(0, 3), (4, 7)], 'calc((1 - 2) / 3) q': [(0, 17), (18, 19)]}
 WS = ['', ' ', '\n\t', '  ']
 
 
@@ -134,6 +134,8 @@ def build(kinds, rot=0, stmts=False):
             vs = pos
             emit(value)
             ve = pos
+            if v % 5 == 3:
+                emit(' ')            # a blank between the value and its semicolon belongs to neither
             d = Decl(ns, ne, vs, ve, pos, stack[-1] if stack else None)
             d.tokens = [(vs + a, vs + b) for (a, b) in TOKENS[value]]
             emit(';')
